@@ -191,6 +191,14 @@ impl GenerationPass for AvailableValuePass {
                 if node.calls_to().is_some() {
                     out_reg_n -= Register::return_addr_set().iter();
                 }
+                // A call through a register (`jalr ra, t0, 0`) comes back
+                // like any other call: whatever function it was, it was free
+                // to change the caller-saved registers.
+                let calls_through_register =
+                    matches!(&node.node(), ParserNode::JumpLinkR(x) if x.rd == Register::X1);
+                if calls_through_register {
+                    out_reg_n -= Register::caller_saved_set().iter();
+                }
                 // An environment call writes its results over what the
                 // registers held: the ones its signature names when the call
                 // is known, the return registers otherwise.
@@ -263,7 +271,7 @@ impl GenerationPass for AvailableValuePass {
                         }
                         // (an environment call may fill a buffer it was
                         // handed, which can lie in the frame as well)
-                        _ => node.calls_to().is_some() || node.is_ecall(),
+                        _ => node.calls_to().is_some() || node.is_ecall() || calls_through_register,
                     };
                     if may_write_frame {
                         map = map
